@@ -10,7 +10,9 @@ from vlib import unitmodel as um
 from vlib.harness import Sub
 
 PROPERTY = "C10"
-RULE = ("fixed catalogue of ~100 numpy ufuncs / array functions in three unit classes (unchanged / transformed / "
+RULE = ("storage cases: element-wise functions of an Array holding a numpy masked array (the mask survives, a statistic taken "
+        "afterwards ignores masked entries) and reductions / constructors with dtype= or an integer out= (the unit survives "
+        "a result type asked for by keyword).  fixed catalogue of ~100 numpy ufuncs / array functions in three unit classes (unchanged / transformed / "
         "dimensionless, incl. logical_*, any, all) plus a values-only class; call forms: positional, axis= (int/None/tuple), "
         "keepdims=, out= for ufuncs and for array functions (sum, std, cumsum, clip ...), the condition of where / compress as "
         "ndarray or Array, a bare operand first (np.divide(2.0, A)), sequences of two or three, clip with one or both bounds; "
@@ -615,8 +617,81 @@ def ufunc_method(case, r):
               f" (n={n}) has unit [{got.unit}]; dimensional analysis gives factor {wu[0]!r} dims {[str(x) for x in wu[1]]}")
 
 
+# ------------------------------------------------------------------ masked values; a result type asked for by keyword
+@st.composite
+def storage_case_st(draw):
+    n = draw(st.integers(2, 7))
+    kind = draw(st.sampled_from(["masked", "dtype_kw"]))
+    num = st.floats(-1e3, 1e3, allow_nan=False).filter(lambda x: abs(x) > 1e-2)
+    return {"kind": kind, "unit": draw(st.sampled_from(["m", "cm", "g/cm**3", "dimensionless", "km/s"])),
+            "vals": draw(st.lists(num, min_size=n, max_size=n)), "mask": draw(st.lists(st.booleans(), min_size=n, max_size=n)),
+            "func": draw(st.sampled_from(["abs", "negative", "square", "add_self", "mul_number", "sum_abs"] if kind == "masked" else
+                                         ["sum", "cumsum", "mean", "zeros_like", "full_like", "cumsum_out"])),
+            "dtype": draw(st.sampled_from(["int64", "int32", "float32", "int64"]))}
+
+
+def storage(case, r):
+    kind, fn = case["kind"], case["func"]
+    r.label("storage_" + kind, "func_" + fn)
+    r.nontrivial(kind == "dtype_kw" or any(case["mask"]))
+    raw = np.array(case["vals"], dtype=np.float64)
+    u = osyris.units(case["unit"])
+    with warnings.catch_warnings(), np.errstate(all="ignore"):
+        warnings.simplefilter("ignore")
+        try:
+            if kind == "masked":
+                mv = np.ma.masked_array(raw.copy(), mask=np.array(case["mask"]))
+                a = osyris.Array(values=mv.copy(), unit=case["unit"])
+                call = {"abs": lambda x: np.abs(x), "negative": lambda x: np.negative(x), "square": lambda x: np.square(x),
+                        "add_self": lambda x: np.add(x, x), "mul_number": lambda x: np.multiply(x, 3.0),
+                        "sum_abs": lambda x: np.sum(np.abs(x))}[fn]
+                got, want = call(a), call(mv)
+                want_unit = u ** 2 if fn == "square" else u
+            else:
+                a = osyris.Array(values=raw.copy(), unit=case["unit"])
+                dt = np.dtype(case["dtype"])
+                if fn == "cumsum_out":
+                    out = osyris.Array(values=np.zeros(len(raw), dtype=dt), unit=case["unit"])
+                    got = np.cumsum(a, out=out)
+                    want = np.cumsum(raw, out=np.zeros(len(raw), dtype=dt))
+                else:
+                    call = {"sum": lambda x: np.sum(x, dtype=dt), "cumsum": lambda x: np.cumsum(x, dtype=dt),
+                            "mean": lambda x: np.mean(x, dtype=np.float32 if dt.kind != "f" else dt),
+                            "zeros_like": lambda x: np.zeros_like(x, dtype=dt), "full_like": lambda x: np.full_like(x, 7, dtype=dt)}[fn]
+                    got, want = call(a), call(raw)
+                want_unit = u
+        except Exception as e:
+            r.bad(["storage", "raises", kind, fn, type(e).__name__], f"{e!r}; case {case}")
+            return
+    if not isinstance(got, osyris.Array):
+        r.bad(["storage", "result-type", kind, fn], type(got).__name__)
+        return
+    if got.unit != want_unit:
+        r.bad(["storage", "unit", kind, fn], f"np.{fn} of [{case['unit']}] values ({kind}, dtype {case['dtype']}) came back in "
+              f"[{got.unit}], expected [{want_unit}]")
+        return
+    gv = got.values
+    if kind == "masked" and fn != "sum_abs":
+        if not isinstance(gv, np.ma.MaskedArray) or not np.array_equal(np.ma.getmaskarray(gv), np.ma.getmaskarray(want)):
+            r.bad(["storage", "mask-lost", fn], f"mask {case['mask']} -> "
+                  f"{np.ma.getmaskarray(gv).tolist() if isinstance(gv, np.ma.MaskedArray) else 'plain ndarray'}")
+            return
+        keep = ~np.ma.getmaskarray(want)
+        ok = np.allclose(np.ma.getdata(gv)[keep], np.ma.getdata(want)[keep], rtol=1e-12, atol=0)
+    else:
+        if np.asarray(gv).dtype != np.asarray(want).dtype:
+            r.bad(["storage", "dtype", kind, fn], f"{np.asarray(gv).dtype} instead of {np.asarray(want).dtype}")
+            return
+        ok = np.allclose(np.asarray(gv, dtype=np.float64), np.asarray(want, dtype=np.float64), rtol=1e-6 if "32" in str(
+            np.asarray(want).dtype) else 1e-12, atol=0)
+    if not ok:
+        r.bad(["storage", "values", kind, fn], f"got {np.asarray(gv).tolist()} want {np.asarray(want).tolist()}")
+
+
 def subs(ctx):
     return [
+        Sub("storage", storage, strategy=storage_case_st(), quick=300, thorough=3000,
+            required={"storage_masked": 0.25, "storage_dtype_kw": 0.25}),
         Sub("ufunc_methods", ufunc_method, strategy=umethod_st(), quick=300, thorough=3000),
         Sub("table", numpy_fn, cases=_table_cases()),
         Sub("numpy_fn", numpy_fn, strategy=case_st(), quick=2500, thorough=12000,
